@@ -2094,7 +2094,7 @@ def choice_restart_run(choices: list[Any], sweep: Any, which: Any) -> bool:
 
 # ----------------------------------------------------------------------------------------------- two real worker threads (A-B-A-B)
 def two_thread_race_run(prop: str, workload: str, j_sym: Any, k1_sym: Any, k2_sym: Any, a_pick_sym: Any = 0, b_pick_sym: Any = 0,
-                        monitors: tuple[str, ...] = ("C04", "C02", "C02x", "C06"), compare: str = "reference", hold_sym: Any = None, hold_n_sym: Any = 0, max_k: int = 40) -> bool:
+                        monitors: tuple[str, ...] = ("C04", "C02", "C02x", "C06"), compare: str = "reference", hold_sym: Any = None, hold_n_sym: Any = 0, max_k: int = 40, max_k2: int | None = None) -> bool:
     """Two worker threads with their own SQLite connections handle two different messages of the
     step-j state concurrently under a deterministic scheduler with TWO switches: A runs until just
     before its k1-th SQL statement (outside an open write transaction), then B runs until just
@@ -2144,7 +2144,7 @@ def two_thread_race_run(prop: str, workload: str, j_sym: Any, k1_sym: Any, k2_sy
                         bc = ([r_ for r_ in others if r_["id"] == hid] + [r_ for r_ in others if r_["id"] != hid])[:3]
                         brow = bc[hx.pick(b_pick_sym, len(bc))]
                         k1 = 1 + hx.pick(k1_sym, max_k)
-                        k2 = 1 + hx.pick(k2_sym, max_k)
+                        k2 = 1 + hx.pick(k2_sym, max_k2 or max_k)
                         raced = _run_two_threads(w, arow, brow, k1, k2)
                         step += 2
                         continue
